@@ -211,7 +211,10 @@ class Sc:
     """symbolic scalar base."""
     __slots__ = ('z',)
     __array_priority__ = 1000
-    __hash__ = None
+
+    def __hash__(self):
+        # structural hash of the term: dictionary keys built from symbolic values (cache keys) behave like values
+        return hash(z3.simplify(self.z))
 
     def __init__(self, z):
         self.z = z
@@ -337,6 +340,7 @@ def safety(kind, cond):
 
 class SNum(Sc):
     __slots__ = ()
+    __hash__ = Sc.__hash__
 
     def _bin(self, other, op, rev=False):
         if isinstance(other, Cx):
@@ -570,6 +574,7 @@ def round_half_even(x):
 
 class SBool(Sc):
     __slots__ = ()
+    __hash__ = Sc.__hash__
 
     def __bool__(self):
         return ctx.branch(self.z)
@@ -1417,9 +1422,8 @@ def cx_eq(a, b):
     pb = [t for t in b.terms if t[2] is not None]
     if len(a.terms) == 1 and len(b.terms) == 1 and len(pa) == 1 and len(pb) == 1:
         (r1, i1, p1), (r2, i2, p2) = a.terms[0], b.terms[0]
-        same = z3.And(r1 == r2, i1 == i2, p1 == p2)
-        zero = z3.And(r1 == 0, i1 == 0, r2 == 0, i2 == 0)
-        return SBool(z3.Or(same, zero))
+        # sufficient condition (a conjunction of real equalities, decidable by the polynomial-identity back end)
+        return SBool(z3.And(r1 == r2, i1 == i2, p1 == p2))
     if all(t[2] is None for t in d.terms):
         r, i, _ = d.terms[0]
         return SBool(z3.And(r == 0, i == 0))
